@@ -126,11 +126,21 @@ Defined(name, ns, arg) ==
 
 (* ---- callback operations (C08): what callback number k (0-based) is given *)
 CbOps == {"generate", "map", "zip", "zipx", "fold", "clone", "default", "iter_fold", "iter_rfold", "iter_clone",
-          "clone_from", "iter_clone_from"}
+          "clone_from", "iter_clone_from",
+          "iter_position", "iter_rposition", "iter_any", "iter_all", "iter_find", "iter_rfind"}
 \* Clone::clone_from(dst, src): operand 1 is the destination (overwritten), operand 2 the source (cloned)
 CloneFromOps == {"clone_from", "iter_clone_from"}
+(* Searching consumers of the by-value iterator, called on `&mut iter' (provided methods of Iterator /
+   DoubleEndedIterator that an implementation may override): the predicate is the callback; it sees the elements one
+   by one from the front (or the back), by value (position, rposition, any, all) or by reference (find, rfind), until
+   its answer ends the search; visited elements leave the iterator, the rest stay.  `arg' is the call index at which
+   the scripted predicate gives the ending answer (-1: never).                                                    *)
+SearchByVal == {"iter_position", "iter_rposition", "iter_any", "iter_all"}
+SearchByRef == {"iter_find", "iter_rfind"}
+SearchOps == SearchByVal \cup SearchByRef
+BackSearch == {"iter_rposition", "iter_rfind"}
 \* index (1-based) of the operand element(s) callback k receives
-CbPos(name, n, k) == IF name = "iter_rfold" THEN n - k ELSE k + 1
+CbPos(name, n, k) == IF name \in {"iter_rfold", "iter_rposition", "iter_rfind"} THEN n - k ELSE k + 1
 CbArgs(name, srcs, n, k) ==
     IF name \in {"generate", "default"} THEN <<>>
     ELSE [i \in DOMAIN srcs |-> srcs[i][CbPos(name, n, k)]]
